@@ -17,7 +17,7 @@ FILES = [
     "qucumber/rbm/purification_rbm.py",
     "qucumber/utils/gradients_utils.py",
 ]
-REQUIRED_THEOREMS = ["C20_module", "C20_no_alias", "C20_sizes", "C20_reinit", "C20_module_ctor", "C20_init_module", "C20_fit_guard",
+REQUIRED_THEOREMS = ["C20_module", "C20_module_args_ignored", "C20_module_sizes_from_module", "C20_no_alias", "C20_sizes", "C20_reinit", "C20_module_ctor", "C20_init_module", "C20_fit_guard",
                      "C20_phase_aux_bias_zero", "C20_phase_aux_grad_zero", "C20_phase_aux_bias_zero_any_rule", "C20_phase_aux_bias_zero_torch_rules",
                      "C20_phase_aux_bias_unused"]
 EXTRA_TRUSTED = [
@@ -28,7 +28,9 @@ EXTRA_TRUSTED = [
 ]
 RULE = ("case = random history (<= 12 ops quick / <= 30 thorough) of: construct from sizes (num_hidden/num_aux None, 0 or explicit), "
         "create RBM module (zero_weights True / False / not passed; num_hidden/num_aux None, 0 or explicit), module.initialize_parameters("
-        "zero_weights True / False / not passed), write into module (non-zero biases), construct from module (3 state types, incl. BinaryRBM -> DensityMatrix), external "
+        "zero_weights True / False / not passed), write into module (non-zero biases), construct from module (3 state types; with nothing but the required "
+        "num_visible, with the module's own sizes, or with inconsistent / None / 0 values of num_visible / num_hidden / num_aux chosen independently, by "
+        "keyword or positionally: the state must take its sizes from the module), sizes-branch constructors also called positionally, external "
         "in-place write into ONE network, fit with bases (24 optimizer settings over SGD, Adam, AdamW, Adadelta, Adagrad, RMSprop, Adamax, NAdam, RAdam, "
         "Rprop, ASGD incl. amsgrad / maximize / decoupled decay / foreach, with or without a StepLR / ExponentialLR scheduler; a callback inspects the "
         "phase aux bias after EVERY batch; one fixed history trains a mixed state once with every setting), fit without bases (must be refused — any "
@@ -41,9 +43,37 @@ RULE = ("case = random history (<= 12 ops quick / <= 30 thorough) of: construct 
         "two-network state that is subsequently written or trained; distinct by hash of the plan")
 
 
+def module_args(rng, kind, sizes):
+    """the sizes a caller passes ALONGSIDE `module=` ("num_hidden/num_aux defaulted or explicit" x "module given"): the documented contract
+    is that the state takes its sizes from the module, so every combination must give the same state -
+    nothing but the required num_visible; the module's own sizes (consistent); other numbers (inconsistent, larger / smaller / 0);
+    an explicit None; each size chosen independently; keywords or positional."""
+    nv, nh, na = sizes
+
+    def pick(own):
+        return rng.choice([own, own, None, 0, own + 1, own + 2, max(own - 1, 0), 1, 7])
+
+    r = rng.random()
+    if r < 0.2:
+        f = {}                                   # Kind(7, module=m): the form the older plans used
+    elif r < 0.4:
+        f = {"nv": nv, "nh": nh}                 # consistent with the module
+        if kind == "dens":
+            f["na"] = na
+    else:
+        f = {"nv": rng.choice([nv, nv + 1, max(nv - 1, 1), 7, 0])}
+        if rng.random() < 0.8:
+            f["nh"] = pick(nh)
+        if kind == "dens" and rng.random() < 0.8:
+            f["na"] = pick(na)
+    if rng.random() < 0.3:
+        f["form"] = "pos"
+    return f
+
+
 def gen_plan(rng, maxlen):
     plan = []
-    states, modules = {}, {}
+    states, modules, msizes = {}, {}, {}
 
     def arch(kind):
         nv = rng.choice([1, 2, 2, 3])
@@ -61,6 +91,8 @@ def gen_plan(rng, maxlen):
             states[slot] = kind
             plan.append({"t": "construct", "slot": slot, "kind": kind, "nv": nv, "nh": nh, "na": na,
                          "ud": rng.choice([None, None, ["H"]]) if kind != "pos" else None})
+            if rng.random() < 0.25:
+                plan[-1]["form"] = "pos"   # all arguments passed positionally
             continue
         slot = rng.choice(sorted(states))
         kind = states[slot]
@@ -69,6 +101,7 @@ def gen_plan(rng, maxlen):
             nv, nh, na = arch("dens" if k == "purif" else "pos")
             ms = rng.randrange(3)
             modules[ms] = k
+            msizes[ms] = (nv, (nh if nh is not None else nv) if k == "purif" else (nh if nh else nv), (na if na is not None else nv) if k == "purif" else None)
             mk = {"t": "mkModule", "mslot": ms, "k": k, "nv": nv, "nh": nh, "na": na}
             z = rng.random()
             if z < 0.35:
@@ -85,7 +118,9 @@ def gen_plan(rng, maxlen):
             k = modules[ms]
             kind2 = rng.choice(["pos", "cplx"]) if k == "binary" else "dens"
             s = rng.randrange(3)
-            plan.append({"t": "constructFrom", "slot": s, "kind": kind2, "mslot": ms, "ud": rng.choice([None, ["S"]]) if kind2 != "pos" else None})
+            cf = {"t": "constructFrom", "slot": s, "kind": kind2, "mslot": ms, "ud": rng.choice([None, ["S"]]) if kind2 != "pos" else None}
+            cf.update(module_args(rng, kind2, msizes[ms]))
+            plan.append(cf)
             if not (k == "binary" and kind2 == "dens"):
                 states[s] = kind2
         elif r < 0.55:
@@ -139,6 +174,11 @@ def shapes(net):
     return [(k, tuple(p.shape)) for k, p in net.named_parameters()]
 
 
+def net_sizes(net):
+    """[num_visible, num_hidden, num_aux or None] attributes of an RBM object"""
+    return [int(net.num_visible), int(net.num_hidden), int(net.num_aux) if hasattr(net, "num_aux") else None]
+
+
 def net_snap(net):
     return {k: p.detach().clone() for k, p in net.named_parameters()}
 
@@ -183,7 +223,7 @@ class Hooks:
         self.batch_aux = []       # (epoch, batch, max |phase aux_bias|) seen by a callback at every on_batch_end of the current fit
 
     def theorem(self, op, comp):
-        return {"construct": "C20_sizes", "constructFrom": "C20_module", "write": "C20_no_alias", "writeModule": "C20_no_alias",
+        return {"construct": "C20_sizes", "constructFrom": "C20_module, C20_module_sizes_from_module, C20_module_args_ignored", "write": "C20_no_alias", "writeModule": "C20_no_alias",
                 "train": "C20_fit_guard, C20_phase_aux_bias_zero, C20_no_alias", "reinit": "C20_reinit",
                 "mkModule": "C20_module_ctor", "initModule": "C20_init_module"}.get(op["t"], "model of the operation")
 
@@ -211,6 +251,7 @@ class Hooks:
             pre["ptrs"] = {n: ptrs(getattr(st, n)) for n in st.networks}
         if t == "constructFrom":
             pre["module"] = net_snap(real.modules[op["mslot"]])
+            pre["module_sizes"] = net_sizes(real.modules[op["mslot"]])
         if t == "initModule":
             mod = real.modules[op["mslot"]]
             pre["shapes"] = shapes(mod)
@@ -293,13 +334,22 @@ class Hooks:
                     ok = ok and st.__dict__["num_visible"] == mod.num_visible and st.__dict__["num_hidden"] == mod.num_hidden
                     if op["kind"] == "dens":
                         ok = ok and st.__dict__["num_aux"] == mod.num_aux
+                    # ... whatever sizes were passed alongside the module; the module itself keeps its sizes, shapes and contents
+                    ok = ok and net_sizes(mod) == pre["module_sizes"] and so.nets_equal(net_snap(mod), pre["module"])
                     if len(st.networks) == 2:
                         ok = ok and st.rbm_ph is not mod and not (set(ptrs(st.rbm_ph)) & (set(ptrs(mod)) | self.seen_ptrs))
                         ok = ok and so.nets_equal(net_snap(st.rbm_ph), pre["module"]) and shapes(st.rbm_ph) == shapes(mod)
-                        ok = ok and type(st.rbm_ph) is type(mod)
+                        ok = ok and type(st.rbm_ph) is type(mod) and net_sizes(st.rbm_ph) == pre["module_sizes"]
                         self.interesting.add(op["slot"])
-                ctx.oracle("module branch: amplitude network IS the module, phase network an independent equal copy", ok, cs,
-                           detail={"err": err}, sig="constructFrom/module", theorem="C20_module")
+                given = {k: op[k] for k in ("nv", "nh", "na") if k in op}
+                ctx.count("constructFrom:sizes_alongside_module=" + ("none" if not given else "consistent" if all(
+                    v == pre["module_sizes"][i] for i, k in enumerate(("nv", "nh", "na")) if k in given for v in [given[k]]) else "inconsistent")
+                    + (":positional" if op.get("form") == "pos" else ""))
+                ctx.oracle("module branch: amplitude network IS the module (parameters and sizes, whatever sizes are passed alongside it), "
+                           "phase network an independent equal copy", ok, cs,
+                           detail={"err": err, "sizes_passed": given, "module_sizes": pre["module_sizes"],
+                                   "state_sizes": None if err is not None else [real.models[op["slot"]].__dict__.get(k) for k in ("num_visible", "num_hidden", "num_aux")]},
+                           sig="constructFrom/module", theorem="C20_module, C20_module_sizes_from_module, C20_module_args_ignored")
         if t == "write" and err is None:
             st = real.models[op["slot"]]
             others = [n for n in st.networks if n != op["net"]]
@@ -612,6 +662,29 @@ def fixed_cases():
     yield {"type": "history", "tseed": 205, "plan": [c(t="construct", slot=0, kind="dens", nv=2, nh=2, na=2, ud=None)] + [
         dict(c(t="train", slot=0, bases=True, opt=o, epochs=2, lr=0.3), **({"sched": scheds[i % len(scheds)]} if i % 3 == 0 else {}))
         for i, o in enumerate(sorted(so.OPTIMS))]}
+
+
+    # sizes passed ALONGSIDE module= (consistent with the module, inconsistent, None, 0; keywords and positional) for the three state types;
+    # the states are then written / re-initialised / trained / saved and auto-loaded (every later operation must see the MODULE's sizes)
+    yield {"type": "history", "tseed": 206, "plan": [
+        c(t="mkModule", mslot=0, k="binary", nv=2, nh=3, na=None), c(t="writeModule", mslot=0),
+        c(t="constructFrom", slot=0, kind="pos", mslot=0, ud=None, nv=2, nh=3),
+        c(t="constructFrom", slot=0, kind="pos", mslot=0, ud=None, nv=2, nh=5), c(t="constructFrom", slot=0, kind="pos", mslot=0, ud=None, nv=4, nh=None),
+        c(t="constructFrom", slot=0, kind="pos", mslot=0, ud=None, nv=3, nh=1, form="pos"), c(t="reinit", slot=0),
+        c(t="constructFrom", slot=1, kind="cplx", mslot=0, ud=None, nv=2, nh=3, form="pos"),
+        c(t="constructFrom", slot=1, kind="cplx", mslot=0, ud=["S"], nv=2, nh=5), c(t="constructFrom", slot=1, kind="cplx", mslot=0, ud=None, nv=3, nh=0),
+        c(t="constructFrom", slot=1, kind="cplx", mslot=0, ud=None, nv=1, nh=2, form="pos"), c(t="write", slot=1, net="rbm_ph"),
+        c(t="train", slot=1, bases=True, opt="sgd", epochs=1, lr=0.5), c(t="save", slot=1, md=None, path=0), c(t="autoload", slot=2, kind="cplx", path=0),
+        c(t="reinit", slot=1),
+        c(t="mkModule", mslot=1, k="purif", nv=2, nh=3, na=1), c(t="writeModule", mslot=1),
+        c(t="constructFrom", slot=0, kind="dens", mslot=1, ud=None, nv=2, nh=3, na=1),
+        c(t="constructFrom", slot=0, kind="dens", mslot=1, ud=None, nv=2, nh=5, na=None), c(t="constructFrom", slot=0, kind="dens", mslot=1, ud=None, nv=2, nh=None, na=4),
+        c(t="constructFrom", slot=0, kind="dens", mslot=1, ud=["H"], nv=3, nh=1, na=2, form="pos"),
+        c(t="constructFrom", slot=0, kind="dens", mslot=1, ud=None, nv=2, nh=0, na=0), c(t="constructFrom", slot=0, kind="dens", mslot=1, ud=None, nv=7, nh=4, na=3),
+        c(t="write", slot=0, net="rbm_ph"), c(t="train", slot=0, bases=True, opt="adam", epochs=1, lr=0.05), c(t="save", slot=0, md=None, path=1),
+        c(t="autoload", slot=2, kind="dens", path=1), c(t="reinit", slot=0), c(t="train", slot=0, bases=False, opt="sgd", epochs=1),
+        c(t="construct", slot=2, kind="dens", nv=2, nh=3, na=1, ud=None, form="pos"), c(t="construct", slot=2, kind="cplx", nv=2, nh=None, na=None, ud=["H"], form="pos"),
+        c(t="construct", slot=2, kind="pos", nv=3, nh=0, na=None, ud=None, form="pos")]}
 
 
 def gen_cases(ctx, thorough, scale=1):
